@@ -120,18 +120,30 @@ func cfgCallsDeep(p *Prog, pk *packages.Package, g *cfg.CFG, match func(q string
 				if !ok {
 					return true
 				}
-				f := calleeFunc(info, call)
-				if f == nil || f.Exported() || f.Pkg() != pk.Types {
-					return true
+				// a function literal called where it is written is a helper without a name
+				var hbody *ast.BlockStmt
+				var htype *ast.FuncType
+				if lit, isLit := ast.Unparen(call.Fun).(*ast.FuncLit); isLit {
+					hbody, htype = lit.Body, lit.Type
+				} else {
+					f := calleeFunc(info, call)
+					if f == nil || f.Exported() || f.Pkg() != pk.Types {
+						return true
+					}
+					hd := decl[f]
+					if hd == nil {
+						return true
+					}
+					q := f.Pkg().Name() + "." + f.Name()
+					if match(q, f) {
+						return true // a stage itself
+					}
+					hbody, htype = hd.Body, hd.Type
 				}
-				hd := decl[f]
-				if hd == nil {
-					return true
-				}
-				q := f.Pkg().Name() + "." + f.Name()
-				if match(q, f) {
-					return true // a stage itself
-				}
+				hd := struct {
+					Body *ast.BlockStmt
+					Type *ast.FuncType
+				}{hbody, htype}
 				hg := cfg.New(hd.Body, func(*ast.CallExpr) bool { return true })
 				inner := cfgCallsDeep(p, pk, hg, match, depth+1)
 				hsucc := successReturns(info, hg)
@@ -803,70 +815,104 @@ func ruleSlotsOrder(c *Ctx) {
 			c.ok("PostSlotTransition.signature", vs.call.Pos(), "verified before ProcessBlock when validateResult; failure returns an error")
 		}
 	}
-	// state root comparison after ProcessBlock: block.StateRoot != hash_tree_root(state) => error, when validateResult
+	// state root comparison after ProcessBlock: block.StateRoot != hash_tree_root(state) => error, when validateResult.
+	// Read through helpers: one side resolves to a HashTreeRoot call, the other to a field named StateRoot.
 	found := false
 	{
-		defs := singleDefs(info, fd.Body)
-		parents := parentMap(fd.Body)
-		for _, st := range cmpsIn(pk, fd, "common.PostSlotTransition", nil, nil, nil, nil) {
-			var be *ast.BinaryExpr
-			ast.Inspect(fd.Body, func(k ast.Node) bool {
-				if b, ok := k.(*ast.BinaryExpr); ok && b.Pos() == st.pos && (b.Op == token.NEQ || b.Op == token.EQL) {
-					be = b
+		// the HashTreeRoot call that runs last before the comparison must come after ProcessBlock: order of the round
+		htrSeq := map[*ast.CallExpr]int{}
+		{
+			seq := 0
+			walkInlined(c.P, pk, top, 0, map[*ast.BlockStmt]bool{}, &seq, func(st inlSite) {
+				if st.f.Name() == "HashTreeRoot" {
+					htrSeq[st.call] = st.seq
 				}
-				return be == nil
 			})
-			if be == nil {
-				continue
+		}
+		walkInlinedNodes(c.P, pk, top, func(n ast.Node, fr *inlEnv) {
+			be, ok := n.(*ast.BinaryExpr)
+			if !ok || (be.Op != token.NEQ && be.Op != token.EQL) || found {
+				return
 			}
-			isHTR := func(e ast.Expr) bool {
-				e = resolveLocal(info, e, defs, 3)
-				call, ok := ast.Unparen(e).(*ast.CallExpr)
+			htrCall := func(e ast.Expr) *ast.CallExpr {
+				x, xfr := fr.resolve(e)
+				call, ok := x.(*ast.CallExpr)
+				if !ok {
+					call = fr.tupleSource(e)
+					xfr = fr
+				}
+				if call == nil {
+					return nil
+				}
+				if f := calleeFunc(xfr.info, call); f != nil && f.Name() == "HashTreeRoot" {
+					return call
+				}
+				return nil
+			}
+			isDeclared := func(e ast.Expr) bool {
+				x, xfr := fr.resolve(e)
+				sel, ok := x.(*ast.SelectorExpr)
 				if !ok {
 					return false
 				}
-				sel, ok := call.Fun.(*ast.SelectorExpr)
-				return ok && sel.Sel.Name == "HashTreeRoot"
+				sn := xfr.info.Selections[sel]
+				return sn != nil && sn.Kind() == types.FieldVal && sn.Obj().Name() == "StateRoot"
 			}
-			isDeclared := func(e ast.Expr) bool {
-				return strings.Contains(types.ExprString(resolveLocal(info, e, defs, 3)), "StateRoot")
-			}
-			if !(isHTR(be.X) && isDeclared(be.Y)) && !(isHTR(be.Y) && isDeclared(be.X)) {
-				continue
+			var root *ast.CallExpr
+			switch {
+			case htrCall(be.X) != nil && isDeclared(be.Y):
+				root = htrCall(be.X)
+			case htrCall(be.Y) != nil && isDeclared(be.X):
+				root = htrCall(be.Y)
+			default:
+				return
 			}
 			found = true
 			key := "PostSlotTransition.state-root"
 			hasFlag := false
-			for p := parents[ast.Node(be)]; p != nil; p = parents[p] {
-				if ifs, ok := p.(*ast.IfStmt); ok && (mentionsNode(ifs.Cond, be) || mentionsNode(ifs.Body, be)) {
-					ast.Inspect(ifs.Cond, func(k ast.Node) bool {
-						if id, ok := k.(*ast.Ident); ok && isBoolParam(fd, info, id) {
-							hasFlag = true
-						}
-						return true
-					})
-				}
-			}
-			// where the root itself is computed (it may be a local defined before the test)
-			at := be.Pos()
-			for _, side := range []ast.Expr{be.X, be.Y} {
-				if isHTR(side) {
-					if p := resolveLocal(info, side, defs, 3).Pos(); p.IsValid() && p < at {
-						at = p
+			var node ast.Node = be
+			for q := fr; q != nil; q = q.up {
+				for _, cd := range pathCondsAt(q.parents, node) {
+					x, xfr := q.resolve(cd.e)
+					if id, ok := x.(*ast.Ident); ok && !cd.neg && xfr == top && isBoolParam(fd, info, id) {
+						hasFlag = true
 					}
 				}
+				// (a flag tested in the same condition: `if validateResult && a != b`)
+				for p := q.parents[node]; p != nil; p = q.parents[p] {
+					if ifs, ok := p.(*ast.IfStmt); ok && mentionsNode(ifs.Cond, node) {
+						ast.Inspect(ifs.Cond, func(k ast.Node) bool {
+							if id, ok := k.(*ast.Ident); ok && q == top && isBoolParam(fd, info, id) {
+								hasFlag = true
+							}
+							return true
+						})
+					}
+				}
+				node = q.site
 			}
+			var owner *ast.FuncDecl
+			if fr == top {
+				owner = fd
+			} else if f := calleeFuncOrNil(fr.up.info, fr.site); f != nil {
+				owner = declOfFunc(pk, f)
+			}
+			rop := token.ILLEGAL
+			if owner != nil {
+				rop = refusalOp(fr.info, owner, fr.parents, be)
+			}
+			at := be.Pos()
 			switch {
-			case len(pb) == 1 && at < pb[0].call.Pos():
+			case len(pbS) == 1 && htrSeq[root] != 0 && htrSeq[root] < pbS[0].seq:
 				c.bad(key, at, "state root is compared before the block is processed")
-			case st.rop != token.NEQ:
+			case rop != token.NEQ:
 				c.bad(key, at, "a state-root mismatch does not return an error")
 			case !hasFlag:
 				c.bad(key, at, "state-root comparison is not governed by validateResult")
 			default:
 				c.ok(key, at, "block.StateRoot != state root after ProcessBlock => error")
 			}
-		}
+		})
 	}
 	if !found {
 		c.bad("PostSlotTransition.state-root", fd.Pos(), "no comparison of the block's declared state root with the post-state root")
@@ -1412,23 +1458,38 @@ func ruleForkSettings(c *Ctx) {
 	bases := map[string]string{"MinSlashingPenaltyQuotient": "MIN_SLASHING_PENALTY_QUOTIENT", "ProportionalSlashingMultiplier": "PROPORTIONAL_SLASHING_MULTIPLIER", "InactivityPenaltyQuotient": "INACTIVITY_PENALTY_QUOTIENT"}
 	for _, fork := range []string{"phase0", "altair", "bellatrix", "capella", "deneb"} {
 		pk, fd := c.P.mustFunc("eth2/beacon/"+fork, "BeaconStateView.ForkSettings")
-		var lit *ast.CompositeLit
+		// the settings value, built with a literal or field by field on a local (or both)
+		var elts []*ast.KeyValueExpr
 		ast.Inspect(fd.Body, func(n ast.Node) bool {
-			if cl, ok := n.(*ast.CompositeLit); ok {
-				if nt := namedOf(pk.TypesInfo.TypeOf(cl)); nt != nil && nt.Obj().Name() == "ForkSettings" {
-					lit = cl
+			switch x := n.(type) {
+			case *ast.CompositeLit:
+				if nt := namedOf(pk.TypesInfo.TypeOf(x)); nt != nil && nt.Obj().Name() == "ForkSettings" {
+					for _, el := range x.Elts {
+						if kv, ok := el.(*ast.KeyValueExpr); ok {
+							elts = append(elts, kv)
+						}
+					}
+				}
+			case *ast.AssignStmt:
+				if x.Tok != token.ASSIGN || len(x.Lhs) != len(x.Rhs) {
+					return true
+				}
+				for i, l := range x.Lhs {
+					sel, ok := ast.Unparen(l).(*ast.SelectorExpr)
+					if !ok {
+						continue
+					}
+					if nt := namedOf(pk.TypesInfo.TypeOf(sel.X)); nt != nil && nt.Obj().Name() == "ForkSettings" {
+						elts = append(elts, &ast.KeyValueExpr{Key: sel.Sel, Colon: x.TokPos, Value: x.Rhs[i]})
+					}
 				}
 			}
 			return true
 		})
-		if lit == nil {
-			anchorFail("%s.ForkSettings literal not found", fork)
+		if len(elts) == 0 {
+			anchorFail("%s.ForkSettings: the settings value is built neither by a literal nor field by field", fork)
 		}
-		for _, el := range lit.Elts {
-			kv, ok := el.(*ast.KeyValueExpr)
-			if !ok {
-				continue
-			}
+		for _, kv := range elts {
 			k := kv.Key.(*ast.Ident).Name
 			key := fork + ".ForkSettings." + k
 			if base, ok := bases[k]; ok {
@@ -1447,29 +1508,59 @@ func ruleForkSettings(c *Ctx) {
 				continue
 			}
 			if k == "CalcProposerShare" {
-				src := types.ExprString(kv.Value)
-				var fl *ast.FuncLit
-				fl, _ = ast.Unparen(kv.Value).(*ast.FuncLit)
-				body := src
-				if fl != nil {
-					var sb strings.Builder
-					ast.Inspect(fl.Body, func(m ast.Node) bool {
-						if id, ok := m.(*ast.Ident); ok {
-							sb.WriteString(id.Name + " ")
-						}
-						return true
-					})
-					body = sb.String()
+				// the function the field is given (a literal, or a declared function of the module), read as the
+				// formula it returns: phase0 divides by the spec's PROPOSER_REWARD_QUOTIENT, later forks do not (their
+				// weights are constants; the exact formula is a formula.spec entry)
+				var body *ast.BlockStmt
+				info := pk.TypesInfo
+				finfo := info
+				switch v := ast.Unparen(kv.Value).(type) {
+				case *ast.FuncLit:
+					body = v.Body
+				case *ast.Ident, *ast.SelectorExpr:
+					var obj types.Object
+					if id, ok := v.(*ast.Ident); ok {
+						obj = info.Uses[id]
+					} else {
+						obj = info.Uses[v.(*ast.SelectorExpr).Sel]
+					}
+					if f, ok := obj.(*types.Func); ok {
+						c.P.funcDecls(func(p2 *packages.Package, f2 *ast.FuncDecl) {
+							if f2.Body != nil && p2.TypesInfo.Defs[f2.Name] == f {
+								body, finfo = f2.Body, p2.TypesInfo
+							}
+						})
+					}
 				}
-				phase0Form := strings.Contains(body, "PROPOSER_REWARD_QUOTIENT")
-				altairForm := strings.Contains(body, "PROPOSER_WEIGHT") && strings.Contains(body, "WEIGHT_DENOMINATOR")
+				if body == nil {
+					c.unm(key, kv.Pos(), "the proposer-share function is neither a literal nor a declared function")
+					continue
+				}
+				var atoms []string
+				readable := true
+				fdefs := singleDefs(finfo, body)
+				ast.Inspect(body, func(m ast.Node) bool {
+					if r, ok := m.(*ast.ReturnStmt); ok && len(r.Results) == 1 {
+						p, ok := exprPoly(finfo, r.Results[0], fdefs, nil, 0)
+						if !ok {
+							readable = false
+							return true
+						}
+						atoms = append(atoms, p.String())
+					}
+					return true
+				})
+				form := strings.Join(atoms, " | ")
+				phase0Form := strings.Contains(form, "PROPOSER_REWARD_QUOTIENT")
 				switch {
-				case fork == "phase0" && phase0Form && !altairForm:
+				case !readable || len(atoms) == 0:
+					c.unm(key, kv.Pos(), "the proposer-share function's result is not readable as a formula")
+				case fork == "phase0" && phase0Form:
 					c.ok(key, kv.Pos(), "reward / PROPOSER_REWARD_QUOTIENT")
-				case fork != "phase0" && altairForm && !phase0Form:
-					c.ok(key, kv.Pos(), "reward * PROPOSER_WEIGHT / WEIGHT_DENOMINATOR")
+				case fork != "phase0" && !phase0Form:
+					c.ok(key, kv.Pos(), "reward * PROPOSER_WEIGHT / WEIGHT_DENOMINATOR (formula: formula.spec)")
 				default:
-					c.bad(key, kv.Pos(), "proposer share closure of %s uses the wrong form (%s)", fork, strings.TrimSpace(body))
+					c.bad(key, kv.Pos(), "proposer share function of %s uses the other fork family's form (%s)", fork, form)
 				}
 			}
 		}
@@ -1602,6 +1693,23 @@ func limitPairs(p *Prog, pk *packages.Package, fd *ast.FuncDecl, idEnv map[types
 							}
 							return false
 						}
+					}
+				}
+			case *ast.UnaryExpr:
+				// !(limit >= count) is count > limit
+				if x.Op == token.NOT {
+					if be, ok := ast.Unparen(x.X).(*ast.BinaryExpr); ok {
+						var cnt, lim ast.Expr
+						switch negOp[be.Op] {
+						case token.GTR:
+							cnt, lim = be.X, be.Y
+						case token.LSS:
+							cnt, lim = be.Y, be.X
+						default:
+							return true
+						}
+						out = append(out, limitPair{subst(cnt, 0), subst(lim, 0), be.Pos()})
+						return false
 					}
 				}
 			case *ast.BinaryExpr:
